@@ -620,14 +620,16 @@ func (g *gcWorld) apply(op gcOp) string {
 		g.ents = append(g.ents, e)
 	case "rm":
 		if e := g.pick(op.E, anyEnt); e != nil {
-			w.RemoveEntity(e.h)
+			// the bookkeeping is released BEFORE the call that drops the reference: a collection may
+			// run (and finalize the referent) at any moment after the call
+			h := e.h
 			e.alive = false
 			g.releaseAll(e)
+			w.RemoveEntity(h)
 			g.labels["entity removed"] = true
 		}
 	case "rmall":
 		// all entities with the plain component
-		n := w.Batch().RemoveEntities(ecs.All(g.ids.plain))
 		cnt := 0
 		for _, e := range g.ents {
 			if e.alive && e.plain {
@@ -636,6 +638,7 @@ func (g *gcWorld) apply(op gcOp) string {
 				cnt++
 			}
 		}
+		n := w.Batch().RemoveEntities(ecs.All(g.ids.plain))
 		if n != cnt {
 			return fmt.Sprintf("RemoveEntities removed %d, expected %d", n, cnt)
 		}
@@ -682,29 +685,29 @@ func (g *gcWorld) apply(op gcOp) string {
 		if e := g.pick(op.E, func(e *gcEnt) bool { return e.ptr != 0 }); e != nil {
 			p, tok := g.book.newPayload()
 			old := e.ptr
-			w.Set(e.h, g.ids.ptr, &PPtr{P: p})
-			e.ptr = tok
 			g.book.release(old)
 			g.pending = append(g.pending, old)
+			w.Set(e.h, g.ids.ptr, &PPtr{P: p})
+			e.ptr = tok
 			g.labels["component overwritten"] = true
 		}
 	case "rempointer":
 		if e := g.pick(op.E, func(e *gcEnt) bool { return len(e.mp) > 0 }); e != nil {
-			w.Remove(e.h, g.ids.mp)
 			g.book.release(e.mp[0])
 			g.pending = append(g.pending, e.mp[0])
 			e.mp = nil
+			w.Remove(e.h, g.ids.mp)
 			g.moves++
 			g.labels["pointer component removed"] = true
 		}
 	case "reset":
-		w.Reset()
 		for _, e := range g.ents {
 			if e.alive {
 				e.alive = false
 				g.releaseAll(e)
 			}
 		}
+		w.Reset()
 		g.labels["reset"] = true
 	case "flush":
 		return g.flushAndCheckRelease()
